@@ -145,8 +145,10 @@ let layout_line (toks : string array) : string =
   let exp = String.concat "|" (List.map (fun ((i, rs), sp) -> string_of_z i ^ "," ^ string_of_z rs ^ "," ^ string_of_z sp) chain) in
   case ^ " ## " ^ exp ^ " ## " ^ (if wf then "1" else "0")
 
-(* M arch os base ip0 n (tech nfill fill_1..fill_nfill ra)*n nmods (mbase msize sym)*      tech: 0 = CFI, 1 = scan
-   answer:  <case line> ## <expected chain: instr,resume,sp,trust|...> ## <mix_wf_layout><rules_ok><walk with cfi_rules = chain>
+(* M arch os base ip0 n (tech nfill fill_1..fill_nfill ra)*n nmods (mbase msize sym)*      tech: 0 = CFI, 1 = scan, 2 = frame pointer
+   (the last fill word of a frame-pointer record is a placeholder: the Coq builder writes the saved frame pointer there and
+   chooses the context's frame pointer)
+   answer:  <case line> ## <expected chain: instr,resume,sp,trust,fp|...> ## <mix_wf_layout><rules_ok><walk with cfi_rules = chain>
    (three 0|1 flags); stack words, chain and preconditions all come from the extracted Coq builder of theorems
    c04_recovers_chain / c04_recovers_chain_rules *)
 let mix_line (toks : string array) : string =
@@ -177,8 +179,8 @@ let mix_line (toks : string array) : string =
                                   string_of_int ngp ] @ List.init ngp (fun _ -> "0") @
                                 [ "*"; base_s; hex_of_words pw words; string_of_int nm ] @
                                 List.concat_map (fun (b, s, y) -> [ b; s; y ]) modtoks) in
-  let exp = String.concat "|" (List.map (fun (((i, rs), sp), t) ->
-    string_of_z i ^ "," ^ string_of_z rs ^ "," ^ string_of_z sp ^ "," ^ trust_name (int_of_z t)) chain) in
+  let exp = String.concat "|" (List.map (fun ((((i, rs), sp), t), fp) ->
+    string_of_z i ^ "," ^ string_of_z rs ^ "," ^ string_of_z sp ^ "," ^ trust_name (int_of_z t) ^ "," ^ string_of_z fp) chain) in
   let b x = if x then "1" else "0" in
   case ^ " ## " ^ exp ^ " ## " ^ b wf ^ b rok ^ b rwalk
 
